@@ -2,6 +2,7 @@
 context."""
 import itertools
 import random
+import re
 
 from vmon import gen, instrument
 from vmon import monitors as M
@@ -23,7 +24,7 @@ ASSUMPTIONS = ["independent key of a case citation = (class, volume, page, guess
                "ambiguous in the database and only checked against the independent key"]
 FLOORS = {"quick": {"db_pairs": 2100, "custom_template_pairs": 80, "cross_template_pairs": 15, "db_pairs_unambiguous": 1500, "db_pairs_unambiguous_by_database": 1200, "roundtrips": 4800, "roundtrip_page:leading_zero": 1000, "roundtrip_page:long": 1000, "pools": 80,
                     "pool_pairs": 100000, "pool_equal_pairs": 300, "placeholder_objects": 50,
-                    "cross_kind_pairs": 20000, "nominative_forms": 100},
+                    "cross_kind_pairs": 20000, "nominative_forms": 100, "nominative_db_forms": 100},
           "thorough": {"db_pairs": 2100, "custom_template_pairs": 80, "cross_template_pairs": 15, "db_pairs_unambiguous": 1500, "db_pairs_unambiguous_by_database": 1200, "pools": 1500, "pool_pairs": 3000000}}
 NPOOL = {"quick": 12, "thorough": 150}
 SHARDS = {"quick": 8, "thorough": 14}
@@ -332,8 +333,50 @@ def pool(spec, rec, rng):
     rec.nontrivial(["pool", spec["seed"], n, tuple(str(k)[:30] for k in keys[:5])])
 
 
+def nominative_db_forms(spec, rec):
+    """Every official-plus-nominative form that reporters-db describes ('5 U.S. (1 Cranch) 137', '3 Tenn.
+    (Cooke) 100'): equal to the plain form '5 U.S. 137' and to each other, whatever other pattern also
+    matches the same characters."""
+    from reporters_db import REPORTERS
+    from eyecite.models import FullCaseCitation, Resource
+    rng = random.Random(spec["seed"] + 21)
+    n = 0
+    for rkey, cl in sorted(REPORTERS.items()):
+        for src in cl:
+            for en, ed in sorted(src["editions"].items()):
+                for t in ed.get("regexes") or []:
+                    m = re.search(r"\(\?P<reporter_nominative>([^)]*)\)", t)
+                    if not m:
+                        continue
+                    for nom in m.group(1).split("|"):
+                        nom = re.sub(r"\\(.)", r"\1", nom)
+                        n += 1
+                        if n % spec["nshards"] != spec["i"]:
+                            continue
+                        v, p = rng.randint(1, 99), rng.randint(1, 900)
+                        forms = [f"{v} {en} {p}", f"{v} {en} ({nom}) {p}", f"{v} {en} ({rng.randint(1, 9)} {nom}) {p}"]
+                        cs = []
+                        for f in forms:
+                            c = one_case(rng.choice(["", "See "]) + f + rng.choice(["", ", 5 (holding x).", " (1850)."]))
+                            if c is None or type(c) is not FullCaseCitation or c.matched_text() != f:
+                                cs = None
+                                break
+                            cs.append(c)
+                        if not cs:
+                            rec.count("nominative_form_not_extracted_as_written")
+                            continue
+                        rec.ev()
+                        rec.count("nominative_db_forms")
+                        rec.nontrivial(forms)
+                        for a, b, fa, fb in ((cs[0], cs[1], forms[0], forms[1]), (cs[0], cs[2], forms[0], forms[2]), (cs[1], cs[2], forms[1], forms[2])):
+                            if not (a == b and hash(a) == hash(b) and Resource(a) == Resource(b)):
+                                rec.violation("C16.nominative_form_not_equal", dict(forms=[fa, fb]),
+                                              observed=dict(reporters=[refmodel.norm_reporter(a), refmodel.norm_reporter(b)]))
+
+
 def run_shard(spec, rec):
     instrument.install(rec, what=())
+    nominative_db_forms(spec, rec)
     db_pairs(spec, rec)
     cross_template(spec, rec)
     roundtrips(spec, rec)
@@ -344,7 +387,11 @@ def run_shard(spec, rec):
 
 def replay(w, rec):
     c = w["case"]
-    if "template_text" in c:
+    if "forms" in c:
+        a, b = one_case(c["forms"][0]), one_case(c["forms"][1])
+        if a is None or b is None or not (a == b and hash(a) == hash(b)):
+            rec.violation(w["monitor"], c)
+    elif "template_text" in c:
         a, b = one_case(c["template_text"]), one_case(c["plain_text"])
         if a is None or b is None or (a == b) != (key(a) == key(b)):
             rec.violation(w["monitor"], c)
